@@ -71,7 +71,40 @@ fn small_exhaustive(ops: &[&str], maxlen: usize, emit: Emit, nonzero_rhs_only: b
     }
 }
 
+/// values at the maxima of the native integer widths (2^8-1 … 2^128-1, and their neighbours) held in vectors of any length,
+/// against operands slightly larger or smaller — where a fast path through native arithmetic changes behaviour
+fn native_maxima(rng: &mut Rng, tier: &str, emit: Emit, ops: &[&str]) {
+    for lt in TYPES {
+        let cap = lt.cap().unwrap_or(330).min(330);
+        for &wbits in &[8usize, 16, 32, 64, 128] {
+            if wbits > cap { continue; }
+            for _ in 0..scale(tier, 1) {
+                let len = if rng.chance(1, 2) { wbits } else { wbits + rng.below(cap - wbits + 1) };
+                let mut a: Vec<bool> = (0..len).map(|i| i < wbits).collect();           // 2^w - 1
+                match rng.below(4) { 0 => { a[0] = false; } 1 if len > wbits => { a[wbits] = true; for i in 0..wbits { a[i] = false; } } _ => {} }   // 2^w - 2, 2^w
+                let l = vec_token(lt, &a, rng.below(2), rng.chance(1, 3));
+                for rt in [*rng.pick(TYPES), ty_of("D"), ty_of("F64x5")] {
+                    let rcap = rt.cap().unwrap_or(330).min(330);
+                    // an operand with more significant bits than the native width, one with exactly as many, a small one
+                    let mut cands: Vec<Vec<bool>> = vec![];
+                    if rcap > wbits { let n = (wbits + 1 + rng.below(70)).min(rcap); let mut x = gen_bits(rng, n); x[n - 1] = true; cands.push(x); }
+                    if rcap >= wbits { cands.push(vec![true; wbits]); }
+                    cands.push(vec![true, true]);
+                    for x in cands {
+                        let r = vec_token(&rt, &x, rng.below(2), rng.chance(1, 3));
+                        for op in ops {
+                            emit(line(op, &[&l, &r, FORMS[rng.below(6)]]));
+                            emit(line(op, &[&r, &l, "ar"]));
+                        }
+                    }
+                }
+            }
+        }
+    }
+}
+
 fn gen_binary(rng: &mut Rng, tier: &str, emit: Emit, ops: &[&str], maxlen: usize, per_pair: usize) {
+    native_maxima(rng, tier, emit, ops);
     small_exhaustive(ops, if tier == "thorough" { 4 } else { 3 }, emit, false);
     for lt in TYPES {
         for rt in TYPES {
